@@ -145,6 +145,8 @@ def run(ctx):
         if n <= 3 or k % 7 == 0 or n >= 5 and k % 3 == 0 or ctx.thorough:
             diag = rng.random() < 0.5
             S = gen.digraph_csr(n, arcs, diag=diag)
+            if k % 5 == 2:
+                S = gen.unsorted_copy(S, rng)     # same pattern, column indices stored in shuffled order
             S.indptr = S.indptr.astype(I32)
             S.indices = S.indices.astype(I32)
             # the splittings depend on the PATTERN of S only: every other sample carries values with S[i,j] = -S[j,i]
